@@ -25,10 +25,10 @@ SPEC = dict(
     exhaustive={Q: False, T: False},
     jobs=[
         job('exh-a', 'h_json', 'exh-a', cases=-1, scale={Q: 5, T: 6}, procs=16, probes=PROBES),
-        job('exh-b', 'h_json', 'exh-b', cases=-1, scale={Q: 6, T: 7}, procs=16),
-        job('gen', 'h_json', 'gen', cases={Q: 3200, T: 40000}, procs=16),
+        job('exh-b', 'h_json', 'exh-b', cases=-1, scale={Q: 6, T: 8}, procs=16),
+        job('gen', 'h_json', 'gen', cases={Q: 3200, T: 80000}, procs=16),
         job('mut', 'h_json', 'mut', cases={Q: 40000, T: 1500000}, procs=16),
-        job('deep', 'h_json', 'deep', cases={Q: 64, T: 320}, procs=16),
+        job('deep', 'h_json', 'deep', cases={Q: 64, T: 640}, procs=16),
         job('roundtrip', 'h_json', 'roundtrip', cases={Q: 16000, T: 600000}, procs=16),
         job('strip-exh', 'h_json', 'strip-exh', cases=-1, scale={Q: 5, T: 6}, procs=16),
         job('strip-rand', 'h_json', 'strip-rand', cases={Q: 40000, T: 1500000}, procs=16),
@@ -36,7 +36,7 @@ SPEC = dict(
     floors={Q: dict(parses=500000, positions_checked=300000, prefix_parses=100000, mutation_parses=30000, roundtrips=20000, rt_string_bytes_compared=200000,
                     valid_documents_compared=2000, value_nodes_compared=10000, strip_calls=300000, strip_with_escape_in_string=10000, strip_with_star_in_block=10000,
                     deep_parses=64, deep_roundtrips=20, max_nesting_depth=1000, malloc_hook_calls=1000000, **{'set:error_messages': 8, 'set:rt_char_classes': 8, 'set:rt_byte_values': 255}),
-            T: dict(parses=12000000, positions_checked=8000000, prefix_parses=1500000, mutation_parses=1000000, roundtrips=600000, rt_string_bytes_compared=5000000,
-                    valid_documents_compared=30000, value_nodes_compared=150000, strip_calls=4000000, strip_with_escape_in_string=100000, strip_with_star_in_block=100000,
-                    deep_parses=320, deep_roundtrips=100, max_nesting_depth=1000, malloc_hook_calls=10000000, **{'set:error_messages': 8, 'set:rt_char_classes': 8, 'set:rt_byte_values': 255})},
+            T: dict(parses=25000000, positions_checked=15000000, prefix_parses=3000000, mutation_parses=1000000, roundtrips=600000, rt_string_bytes_compared=5000000,
+                    valid_documents_compared=60000, value_nodes_compared=300000, strip_calls=4000000, strip_with_escape_in_string=100000, strip_with_star_in_block=100000,
+                    deep_parses=640, deep_roundtrips=200, max_nesting_depth=1000, malloc_hook_calls=10000000, **{'set:error_messages': 8, 'set:rt_char_classes': 8, 'set:rt_byte_values': 255})},
 )
